@@ -357,3 +357,34 @@ pub proof fn lemma_append_il_wf(o: ControlFlowGraph, other: ControlFlowGraph, n:
         assert(n == o);
     }
 }
+
+// ---- clients of the imported contracts of insert / append (template code): the lemmas above applied to the real calls ----------
+impl ControlFlowGraph {
+    /// appending a well-formed per-instruction graph to a well-formed (or still empty) graph keeps it well formed
+    pub fn c05_client_append(&mut self, other: &ControlFlowGraph) -> (r: Result<(), Error>)
+        requires
+            old(self).graph_il_wf() || (old(self).contents_il_wf() && old(self).graph.vertices@.len() == 0),
+            other.graph_il_wf(), old(self).next_index + other.graph.vertices@.len() <= usize::MAX,
+        ensures
+            final(self).contents_il_wf(),
+            r is Ok ==> final(self).graph_il_wf(),
+    {
+        let ghost o = *self;
+        let r = self.append(other);
+        proof { lemma_append_il_wf(o, *other, *self, r); }
+        r
+    }
+
+    /// inserting a well-formed graph keeps the contents well formed; the copy of its exit is reachable from the copy of its entry
+    pub fn c05_client_insert(&mut self, other: &ControlFlowGraph) -> (r: Result<(usize, usize), Error>)
+        requires old(self).contents_il_wf(), other.graph_il_wf(), old(self).next_index + other.graph.vertices@.len() <= usize::MAX,
+        ensures
+            final(self).contents_il_wf(),
+            r matches Ok(p) ==> reaches(*final(self), p.0, p.1),
+    {
+        let ghost o = *self;
+        let r = self.insert(other);
+        proof { lemma_insert_il_wf(o, *other, *self, r); }
+        r
+    }
+}
